@@ -210,6 +210,10 @@ def first_frame(detail):
     if m:
         ops = re.findall(r'r\d+=([A-Z_0-9]+)\(([A-Za-z_]*)', detail)
         return m.group(1) + ':' + '+'.join(sorted(set('%s.%s' % (a, b) if b else a for a, b in ops)))
+    m = re.search(r'FILE-RACE: rank \d+ (reads|writes) \[\d+,\d+\) and rank \d+ (reads|writes)', detail)
+    if m: return 'FILE-RACE:' + '+'.join(sorted((m.group(1), m.group(2))))
+    m = re.search(r'LIVELOCK', detail)
+    if m: return 'LIVELOCK'
     m = re.search(r'/repo/src/[^ :]+:\d+', detail)
     if m: return m.group(0)
     m = re.search(r'CRASH sig=\d+', detail)
